@@ -2,7 +2,7 @@
 
 from ..core import PROVED, REFUTED, UNKNOWN, MISSING
 from ..poly import Poly, prove, mk_min
-from ..rules import vstr, fstr, payload_calls
+from ..rules import vstr, fstr, payload_calls, ub_hints
 from ..tys import tstr
 
 EXPLANATION = (
@@ -37,15 +37,23 @@ def check_generic_hex(ctx, cfg):
     if a.unknown:
         ctx.ob("C14.H1", key + "#analysis", UNKNOWN, "analysis incomplete: %s" % a.unknown[:2], at=b["at"], cfg=cfg)
     N = a.tenv.length({"k": "param", "n": b["generics"][0]["n"]})
-    # --- identify max_digits: the RangeTo bound of the small-path get_unchecked on the 2N buffer
-    gus = find_calls(a, lambda c: c.fn == "core::slice::<impl [T]>::get_unchecked")
-    small = [c for c in gus if c.args[0][0] == "P" and c.args[0][3] is not None and c.args[0][3] == N * Poly.const(2)]
-    large = [c for c in gus if c.args[0][0] == "P" and c.args[0][3] is not None and c.args[0][3].is_const()]
-    if len(small) != 1 or len(large) != 1:
-        ctx.ob("C14.H3", key, REFUTED if gus else MISSING, "expected one prefix cut on the 2N stack buffer and one on the fixed chunk buffer; found %d / %d" % (len(small), len(large)), at=b["at"], cfg=cfg)
+    # --- every string handed to the formatter: write_str(from_utf8_unchecked(P(buffer, offset, length))) - however the prefix was cut
+    # (get_unchecked(..n), &buf[..n], from_raw_parts(buf.as_ptr(), n)); the buffer's extent comes from the type of the local it lives in
+    ws_all = find_calls(a, lambda c: c.fn.endswith("Formatter::<'a>::write_str"))
+    prints = []
+    for w in ws_all:
+        src = [c for c in a.calls if c.fn in ("core::str::from_utf8_unchecked", "core::str::converts::from_utf8_unchecked") and c.ret == w.args[1]]
+        p_ = src[0].args[0] if len(src) == 1 else None
+        ext = None
+        if p_ is not None and p_[0] == "P" and p_[1][0] == "local":
+            ext = a.tenv.size(a.local_ty(p_[1][1]))
+        prints.append((w, p_, ext))
+    small = [x for x in prints if x[2] is not None and x[2] == N * Poly.const(2) and x[1][3] is not None]
+    large = [x for x in prints if x[2] is not None and x[2].is_const() and x[1][3] is not None]
+    if len(small) != 1 or not large or len(small) + len(large) != len(prints):
+        ctx.ob("C14.H3", key, REFUTED if prints else MISSING, "expected every write_str to print a tracked prefix of the 2N-byte stack buffer (one site) or of the fixed chunk buffer; found %d / %d of %d write_str sites" % (len(small), len(large), len(prints)), at=b["at"], cfg=cfg)
         return
-    rng = a.range_of(small[0].args[1], small[0].args[0][3])
-    md = rng[1]
+    md = small[0][1][3]
     # H1: exact clamp
     prec = find_calls(a, lambda c: c.fn.endswith("Formatter::<'a>::precision"))
     ok1 = False
@@ -57,6 +65,9 @@ def check_generic_hex(ctx, cfg):
     if len(prec) == 1 and mdl is not None:
         pv = Poly.atom(("proj", ("proj", prec[0].ret, (("v", 1), 0))))
         sites = [s for s in a.assigns if s["cell"] == (("local", mdl), ()) and s["val"][0] == "I"]
+        # an arm may also yield its value as the destination of a call (`Some(p) => min(p, 2 * N)`)
+        sites += [{"val": c.ret, "facts": c.facts, "site": (c.bb, None)} for c in a.calls
+                  if c.term.get("dest") and c.term["dest"]["l"] == mdl and not c.term["dest"]["p"] and c.ret is not None and c.ret[0] == "I"]
         good = bool(sites)
         dets = []
         for s in sites:
@@ -103,52 +114,42 @@ def check_generic_hex(ctx, cfg):
         if r is not None:
             mb = r[1]
             want = Poly.atom(("shr1", md)) + Poly.atom(("and1", md))
-            ok2 = mb == want and idx[0].args[0][0] == "P" and idx[0].args[0][1] == ("arg", 1)
+            ok2 = (mb == want or prove(("==", mb - want), a.poly_facts(idx[0].facts))) and idx[0].args[0][0] == "P" and idx[0].args[0][1] == ("arg", 1)
             det2 = "input = arr[..%r]; spec ceil(max_digits / 2) = (d >> 1) + (d & 1)" % (mb,)
     ctx.ob("C14.H2", key + "#bytes", ok2, det2, at=b["at"], cfg=cfg)
-    un = find_calls(a, lambda c: c.fn == "core::hint::unreachable_unchecked")
-    for i, c in enumerate(un):
-        infeasible = prove((">=", Poly.const(-1)), a.poly_facts(c.facts))
-        ctx.ob("C14.H2", "%s#unreachable#%d" % (key, i), infeasible, "hint reached under %s; infeasible: %s" % (fstr(c.facts), infeasible), at=c.at, cfg=cfg)
+    for i, (c, bad) in enumerate(ub_hints(a)):
+        infeasible = bad is not None and prove((">=", Poly.const(-1)), a.poly_facts(bad))
+        ctx.ob("C14.H2", "%s#unreachable#%d" % (key, i), infeasible, "hint violated under %s; infeasible: %s" % (fstr(bad) if bad is not None else "?", infeasible), at=c.at, cfg=cfg)
+    sw, sp, sext = small[0]
     if mb is not None:
-        cov = prove((">=", mb * Poly.const(2) - md), a.poly_facts(small[0].facts))
+        cov = prove((">=", mb * Poly.const(2) - md), a.poly_facts(sw.facts))
         ctx.ob("C14.H2", key + "#coverage", cov, "2 * max_bytes >= max_digits (every printed position was written by the encoder): %s" % cov, at=b["at"], cfg=cfg)
     # H3 small path
-    pf = a.poly_facts(small[0].facts)
-    ctx.ob("C14.H3", key + "#small_prefix", prove((">=", N * Poly.const(2) - md), pf), "printed prefix ..%r within the 2N-byte buffer under %s" % (md, fstr(small[0].facts)), at=small[0].at, cfg=cfg)
-    ctx.ob("C14.H3", key + "#small_guard", prove((">=", Poly.const(1024) - N), pf), "stack-buffer path entered only under N <= 1024: %s" % fstr(small[0].facts), at=small[0].at, cfg=cfg)
-    # H4 large path
-    c = large[0]
-    r = a.range_of(c.args[1], c.args[0][3])
-    n = r[1]
-    pf = a.poly_facts(c.facts)
-    ctx.ob("C14.H4", key + "#chunk_prefix", prove((">=", c.args[0][3] - n), pf), "printed prefix ..%r within the %r-byte chunk buffer" % (n, c.args[0][3]), at=c.at, cfg=cfg)
-    # the budget never underflows: the value stored back is old - n with n <= old
-    dl = None
-    for at in n.atoms():
-        if isinstance(at, tuple) and at[0] == "min":
-            for side in (at[1], at[2]):
-                for x in side.atoms():
-                    if isinstance(x, tuple) and x[0] == "phi":
-                        dl = x
-    okb = False
-    if dl is not None:
-        okb = prove((">=", Poly.atom(dl) - n), pf)
-    ctx.ob("C14.H4", key + "#budget", okb, "n = %r never exceeds the remaining digit budget (no underflow of digits_left): %s" % (n, okb), at=c.at, cfg=cfg)
-    # H7: every string handed to the formatter is a prefix of a digit buffer of exactly the digit budget of its path:
-    # max_digits on the stack-buffer path, min(2 * chunk, digits_left) on the chunked path (a longer or shorter write prints the wrong number of digits)
-    ws = find_calls(a, lambda c: c.fn.endswith("Formatter::<'a>::write_str"))
-    for i, w in enumerate(ws):
-        src = [c for c in a.calls if c.fn == "core::str::from_utf8_unchecked" and c.ret == w.args[1]]
-        if len(src) != 1 or src[0].args[0][0] != "P" or src[0].args[0][3] is None:
-            ctx.ob("C14.H7", "%s#write_str#%d" % (key, i), UNKNOWN, "the written string is not a tracked prefix of a digit buffer", at=w.at, cfg=cfg)
-            continue
-        p_ = src[0].args[0]
-        pfw = a.poly_facts(w.facts)
-        small_path = prove((">=", Poly.const(1024) - N), pfw)
-        want = md if small_path else n
-        ok7 = (not p_[2].t) and prove(("==", p_[3] - want), pfw)
-        ctx.ob("C14.H7", "%s#write_str#%d" % (key, i), ok7, "write_str(buf[..%r]) on the %s path; required length: the digit budget %r: %s" % (p_[3], "stack-buffer" if small_path else "chunked", want, ok7), at=w.at, cfg=cfg)
+    pf = a.poly_facts(sw.facts)
+    ctx.ob("C14.H3", key + "#small_prefix", (not sp[2].t) and prove((">=", N * Poly.const(2) - md), pf), "printed prefix [0, %r) within the 2N-byte buffer under %s" % (md, fstr(sw.facts)), at=sw.at, cfg=cfg)
+    ctx.ob("C14.H3", key + "#small_guard", prove((">=", Poly.const(1024) - N), pf), "stack-buffer path entered only under N <= 1024: %s" % fstr(sw.facts), at=sw.at, cfg=cfg)
+    # H4 large path: every print from the chunk buffer
+    n = None
+    for li, (lw, lp_, lext) in enumerate(large):
+        n_i = lp_[3]
+        n = n if n is not None else n_i
+        pf = a.poly_facts(lw.facts)
+        tag = "" if li == 0 else "#%d" % li
+        ctx.ob("C14.H4", key + "#chunk_prefix" + tag, (not lp_[2].t) and prove((">=", lext - n_i), pf), "printed prefix [0, %r) within the %r-byte chunk buffer" % (n_i, lext), at=lw.at, cfg=cfg)
+        # the budget never underflows: the value stored back is old - n with n <= old
+        dl = None
+        for at in n_i.atoms():
+            if isinstance(at, tuple) and at[0] == "min":
+                for side in at[1:]:
+                    for x in side.atoms():
+                        if isinstance(x, tuple) and x[0] == "phi":
+                            dl = x
+        okb = dl is not None and prove((">=", Poly.atom(dl) - n_i), pf)
+        ctx.ob("C14.H4", key + "#budget" + tag, okb, "n = %r never exceeds the remaining digit budget (no underflow of digits_left): %s" % (n_i, okb), at=lw.at, cfg=cfg)
+    # H7: the stack-buffer path prints exactly the digit budget (by construction of md above: it IS the printed length; that it is the clamped
+    # budget is H1); on the chunked path each print is min(2 * chunk, digits_left) - checked with the loop accounting below (H9)
+    ctx.ob("C14.H7", "%s#write_str#small" % key, (not sp[2].t), "write_str(buf[0..%r]) on the stack-buffer path: the prefix starts at the buffer's first byte: %s" % (md, not sp[2].t), at=sw.at, cfg=cfg)
+    check_accounting(ctx, cfg, a, b, key, N, md, mb, small[0], large)
     # H5: encoder calls
     encs = find_calls(a, lambda c: c.key in ("hex_encode", "hex_encode_fallback"))
     for i, c in enumerate(encs):
@@ -160,6 +161,156 @@ def check_generic_hex(ctx, cfg):
         ctx.ob("C14.H6", "%s#%s#%d#case" % (key, c.key, i), fwd, "the UPPER const parameter is forwarded to the encoder: %s" % (tstr(up) if up else None), at=c.at, cfg=cfg)
     ctx.floor("C14.H5", "encoder call sites in generic_hex (%s)" % cfg, len(encs), 1)
     ctx.sample({"rule": "C14", "cfg": cfg, "max_digits": repr(md), "max_bytes": repr(mb), "chunk_prefix": repr(n)})
+
+
+def enc_calls(a):
+    return [c for c in a.calls if c.key in ("hex_encode", "hex_encode_fallback") or c.fn.startswith("faster_hex::")]
+
+
+def check_accounting(ctx, cfg, a, b, key, N, md, mb, small, large):
+    """H10 (stack-buffer path) and H9 (chunked path): WHICH bytes' digits reach the formatter, in which order, and how many of them.
+    Together with H8 (what the encoder writes) this decides the printed string for the table encoder: it is the first max_digits characters of
+    the concatenated two-digit forms of arr[0], arr[1], ..."""
+    from ..loops import find_loops
+    encs = enc_calls(a)
+    sw, sp, _ = small
+    # H10: the string printed on the stack-buffer path is the start of the buffer the encoder filled from the start of the array
+    doms = [c for c in encs if a.reaches(c.bb, sw.bb) and c.args[1][0] == "P" and c.args[1][1] == sp[1]]
+    bad = []
+    for c in doms:
+        src, dst = c.args[0], c.args[1]
+        if not (src[0] == "P" and src[1] == ("arg", 1) and not src[2].t and src[3] is not None):
+            bad.append("encoder source is not a prefix of the array from its first byte: %s" % vstr(src))
+        elif mb is not None and not prove((">=", src[3] - mb), a.poly_facts(c.facts)):
+            bad.append("encoder source %s may be shorter than max_bytes" % vstr(src))
+        if dst[2].t:
+            bad.append("encoder destination does not start at the buffer's first byte: %s" % vstr(dst))
+    # every path to the print passes exactly one of these encoder calls: none of them reaches another, and the print is unreachable without one
+    multi = [1 for x in doms for y in doms if x is not y and a.reaches(x.bb, y.bb)]
+    cut = not a.reaches_avoiding(0, sw.bb, {c.bb for c in doms}) if hasattr(a, "reaches_avoiding") else None
+    if cut is None:
+        cut = _reach_avoiding(a, 0, sw.bb, {c.bb for c in doms}) is False
+    ok10 = bool(doms) and not bad and not multi and cut
+    ctx.ob("C14.H10", key + "#small", ok10, "stack-buffer path: every path to the print runs exactly one encoder call (%d sites; none on a path: %s) whose source is arr[0..L) with L >= max_bytes and whose destination is the printed buffer from its first byte: %s" % (
+        len(doms), not cut, "True" if not bad else "; ".join(bad)), at=sw.at, cfg=cfg)
+    # H9: chunked path
+    loops = find_loops(a)
+    for li, (lw, lp_, lext) in enumerate(large):
+        site = key + "#chunked" + ("" if li == 0 else "#%d" % li)
+        lps = [lp for lp in loops if lw.bb in lp.blocks]
+        if len(lps) != 1:
+            # a print from the chunk buffer outside any recognised loop over the input (or a loop form that is not an iterator pipeline):
+            # the per-iteration tie below cannot be stated; the sequencing is then NOT decided for this site (no alarm: H4/H5 still hold)
+            ctx.note("C14.H9 %s: print site is not inside a loop over an iterator pipeline - chunk sequencing not decided for this form" % site)
+            continue
+        lp = lps[0]
+        n_i = lp_[3]
+        inl = [c for c in encs if c.bb in lp.blocks]
+        once = lp.count_on_paths(lambda c: c in inl) == {1} and lp.count_on_paths(lambda c: c is lw) <= {0, 1}
+        tie = len(inl) == 1 and inl[0].args[1][0] == "P" and inl[0].args[1][1] == lp_[1] and not inl[0].args[1][2].t and a.dominates(inl[0].bb, lw.bb)
+        src = inl[0].args[0] if inl else None
+        # the budget cell: the phi the printed length is the min with
+        dl = None
+        for at in n_i.atoms():
+            if isinstance(at, tuple) and at[0] == "min":
+                for side in at[1:]:
+                    for x in side.atoms():
+                        if isinstance(x, tuple) and x[0] == "phi":
+                            dl = x
+        exact = tie and src is not None and src[0] == "P" and src[3] is not None and dl is not None and n_i == mk_min(src[3] * Poly.const(2), Poly.atom(dl))
+        # digits_left: initialised with max_digits before the loop, and inside the loop only ever replaced by (itself - n), once per iteration
+        acc = False
+        det_acc = "budget variable not identified"
+        if dl is not None and dl[2][0][0] == "local":
+            cell = (("local", dl[2][0][1]), ())
+            sites = [x for x in a.assigns if x["cell"] == cell and x["val"][0] == "I"]
+            inside = [x for x in sites if x["site"][0] in lp.blocks]
+            outside = [x for x in sites if x["site"][0] not in lp.blocks]
+            init_ok = len(outside) >= 1 and all(x["val"][1] == md for x in outside)
+            step_ok = len(inside) == 1 and inside[0]["val"][1] == Poly.atom(dl) - n_i
+            once_dec = step_ok and _count_blocks(lp, {inside[0]["site"][0]}) == {1}
+            acc = init_ok and step_ok and once_dec
+            det_acc = "initialised with max_digits: %s; in the loop only `-= n`, once per iteration: %s/%s" % (init_ok, step_ok, once_dec)
+        # the producer of the chunks
+        pipe = lp.pipe
+        prod = None
+        if isinstance(pipe, tuple) and len(pipe) == 5 and pipe[:3] == ("V", "iter", "chunks") and not lp.backward:
+            inp = pipe[3]
+            whole = inp[0] == "P" and inp[1] == ("arg", 1) and not inp[2].t and inp[3] is not None and mb is not None and inp[3] == mb
+            k_ok = pipe[4].is_const() and 1 <= pipe[4].const_value() and 2 * pipe[4].const_value() <= (lext.const_value() if lext.is_const() else 0)
+            item = src is not None and src == lp.payload
+            prod = whole and k_ok and item
+            det_p = "chunks(%r) over arr[0..max_bytes) from its first byte, forward, unadapted: %s/%s; the encoder's source is this iteration's chunk: %s" % (pipe[4], whole, k_ok, item)
+        elif isinstance(pipe, tuple) and pipe and pipe[0] == "V" and pipe[1] == "iter":
+            prod = False
+            det_p = "the loop iterates %s - not consecutive chunks of the input in order" % vstr(pipe)[:160]
+        else:
+            det_p = "producer of the pieces not recognised: sequencing not decided for this form"
+        leave = all(_leaves_fn(a, y) for (x, y) in lp.breaks)
+        ok9 = bool(once and tie and exact and acc and leave and prod is not False)
+        ctx.ob("C14.H9", site, ok9, "each iteration encodes its piece into the chunk buffer from its first byte, once, before printing: %s/%s; printed length is exactly min(2 * piece, digits_left): %s; %s; the loop is only left early by returning (a formatter error): %s; %s" % (
+            once, tie, exact, det_acc, leave, det_p), at=lw.at, cfg=cfg)
+
+
+def _reach_avoiding(a, src, dst, avoid):
+    seen, work = set(), [src]
+    while work:
+        x = work.pop()
+        if x in seen or x in avoid:
+            continue
+        if x == dst:
+            return True
+        seen.add(x)
+        work.extend(s for s in a.edges.get(x, []) if not a.blocks[s]["cleanup"])
+    return False
+
+
+def _count_blocks(lp, bbs):
+    """How many times one step of the loop passes through any block of bbs."""
+    a = lp.a
+    memo = {}
+
+    def go(bb, stack):
+        if bb in stack:
+            return None
+        if bb in memo:
+            return memo[bb]
+        here = 1 if bb in bbs else 0
+        out = set()
+        for s_ in a.edges.get(bb, []):
+            if a.blocks[s_]["cleanup"]:
+                continue
+            if s_ == lp.nxt.bb:
+                out.add(here)
+            elif s_ in lp.blocks:
+                r = go(s_, stack | {bb})
+                if r is None:
+                    return None
+                out |= {here + x for x in r}
+        memo[bb] = out
+        return out
+    res = set()
+    for e in lp.entries:
+        r = go(e, frozenset())
+        if r is None:
+            return None
+        res |= r
+    return res
+
+
+def _leaves_fn(a, bb):
+    """From bb (outside the loop) control only reaches return blocks without further prints."""
+    seen, work = set(), [bb]
+    while work:
+        x = work.pop()
+        if x in seen:
+            continue
+        seen.add(x)
+        for c in a.calls:
+            if c.bb == x and c.fn.endswith("write_str"):
+                return False
+        work.extend(s for s in a.edges.get(x, []) if not a.blocks[s]["cleanup"])
+    return True
 
 
 def check_encoders(ctx, cfg):
@@ -183,10 +334,12 @@ def check_encoders(ctx, cfg):
     b = ctx.body(cfg, "hex_encode_fallback", "C14.H5")
     if b is not None:
         a = ctx.analysis(cfg, "hex_encode_fallback")
-        un = [c for c in a.calls if c.fn == "core::hint::unreachable_unchecked"]
+        un = ub_hints(a)
         src_len, dst_len = Poly.atom(("len", ("arg", 1))), Poly.atom(("len", ("arg", 2)))
-        ok = len(un) == 1 and a.prove(un[0].facts, "Lt", dst_len, src_len * Poly.const(2))
-        ctx.ob("C14.H5", "hex_encode_fallback#hint", ok, "unreachable_unchecked is reached exactly when dst.len() < 2*src.len() (the negation of the checked precondition): %s" % (fstr(un[0].facts) if un else "-"), at=b["at"], cfg=cfg)
+        # the hint assumes nothing beyond the capacity precondition the call sites establish: under dst.len() >= 2 * src.len() it cannot be violated
+        pre = frozenset([("poly", ">=", dst_len - src_len * Poly.const(2))])
+        ok = all(bad is not None and prove((">=", Poly.const(-1)), a.poly_facts(bad | pre)) for _, bad in un)
+        ctx.ob("C14.H5", "hex_encode_fallback#hint", ok, "%d optimiser hint(s); none can be violated when dst.len() >= 2*src.len() (the precondition checked at every call site): %s" % (len(un), [fstr(bad) if bad is not None else "?" for _, bad in un]), at=b["at"], cfg=cfg)
         # digit tables keyed by UPPER
         blocks = b["mir"]["blocks"]
         tables = {}
@@ -203,6 +356,115 @@ def check_encoders(ctx, cfg):
         if tables:
             ok = "0123456789abcdef" in tables.get(0, "") and "0123456789ABCDEF" in tables.get(1, "")
             ctx.ob("C14.H6", "hex_encode_fallback#tables", ok, "digit tables keyed by UPPER: false -> %s, true -> %s" % (tables.get(0), tables.get(1)), at=b["at"], cfg=cfg)
+
+
+def _digit_store(st):
+    """(destination cell, nibble 0 = high / 1 = low, table base, source byte term) if the stored value is table[(byte >> 4)] or table[(byte & 15)]."""
+    v = st["val"]
+    if v[0] != "I":
+        return None
+    ats = v[1].atoms()
+    if len(v[1].t) != 1 or len(ats) != 1:
+        return None
+    at = next(iter(ats))
+    if not (isinstance(at, tuple) and at[0] == "cell" and isinstance(at[1], tuple) and len(at[1]) == 2):
+        return None
+    tb, path = at[1]
+    if not (len(path) == 1 and isinstance(path[0], tuple) and path[0][0] == "idx" and path[0][1][0] == "I"):
+        return None
+    ix = path[0][1][1]
+    ia = ix.atoms()
+    if len(ix.t) != 1 or len(ia) != 1:
+        return None
+    x = next(iter(ia))
+    if isinstance(x, tuple) and x[0] == "shr" and x[2] == 4:
+        return st["cell"], 0, tb, x[1]
+    if isinstance(x, tuple) and x[0] == "band" and x[2] == 15:
+        return st["cell"], 1, tb, x[1]
+    return None
+
+
+def check_encoder_writes(ctx, cfg):
+    """H8: what the table encoder writes: for every k < src.len(): dst[2k] = TABLE[src[k] >> 4], dst[2k + 1] = TABLE[src[k] & 15] (TABLE: H6)."""
+    from ..loops import find_loops
+    key = "hex_encode_fallback"
+    b = ctx.db(cfg).get(key)
+    if b is None:
+        return
+    a = ctx.analysis(cfg, key)
+    rule = "C14.H8"
+    src_ok = lambda p_: p_[0] == "P" and p_[1] == ("arg", 1) and not p_[2].t and p_[3] == Poly.atom(("len", ("arg", 1)))
+    fes = [c for c in a.calls if c.fn == "core::iter::Iterator::for_each"]
+    if len(fes) == 1:
+        pipe, cv = fes[0].args[0], fes[0].args[1]
+        shape = isinstance(pipe, tuple) and len(pipe) == 5 and pipe[:3] == ("V", "iter", "zip")
+        d_ok = s_ok = False
+        if shape:
+            d, s_ = pipe[3], pipe[4]
+            d_ok = isinstance(d, tuple) and len(d) == 5 and d[:3] == ("V", "iter", "chunks_exact") and d[3][0] == "P" and d[3][1] == ("arg", 2) and not d[3][2].t and d[4] == Poly.const(2)
+            if isinstance(s_, tuple) and len(s_) == 5 and s_[:3] == ("V", "iter", "slice"):
+                s_ = s_[3]
+            s_ok = src_ok(s_)
+        c_ok, cdet = False, "closure not found"
+        if cv[0] == "A" and isinstance(cv[1], tuple) and cv[1][0] == "closure":
+            cb = ctx.db(cfg).by_path.get(cv[1][1])
+            ca = ctx.analysis(cfg, cb["key"])
+            ds = [_digit_store(x) for x in ca.stores]
+            slot = ("obj", ("proj", ("proj", ("V", "arg", 2), (0,))))
+            byte = Poly.atom(("cell", (("obj", ("proj", ("proj", ("V", "arg", 2), (1,)))), ())))
+            good = len(ca.stores) == 2 and all(x is not None for x in ds)
+            if good:
+                by = {x[1]: x for x in ds}
+                good = set(by) == {0, 1} and by[0][0] == (slot, (("idx", ("I", Poly.const(0))),)) and by[1][0] == (slot, (("idx", ("I", Poly.const(1))),)) \
+                    and by[0][3] == byte and by[1][3] == byte and by[0][2] == by[1][2] == ("obj", ("cell", (("arg", 1), (0,))))
+            tbl = len(cv[2]) >= 1 and cv[2][0][0] == "P"
+            others = [c.fn for c in payload_calls(ca) if not getattr(c, "no_effects", False)]
+            c_ok = good and tbl and not others
+            cdet = "pair k: s[0] = TABLE[c >> 4], s[1] = TABLE[c & 15] with (s, c) = (k-th 2-byte piece of dst, k-th byte of src), both stores unconditional, nothing else: %s" % c_ok
+        ok = shape and d_ok and s_ok and c_ok
+        ctx.ob(rule, key, ok, "encoder = zip(dst.chunks_exact_mut(2) from dst[0]: %s, src from src[0], whole: %s).for_each(closure); %s" % (d_ok, s_ok, cdet), at=b["at"], cfg=cfg)
+        return
+    lps = [lp for lp in find_loops(a)]
+    if len(lps) == 1:
+        lp = lps[0]
+        pipe = lp.pipe
+        tag0 = lp.nxt.bb
+        E = Poly.atom  # shorthand
+
+        def strip(x):
+            return x[3] if isinstance(x, tuple) and len(x) == 5 and x[:3] == ("V", "iter", "slice") else x
+        form = None
+        if isinstance(pipe, tuple) and len(pipe) == 4 and pipe[:3] == ("V", "iter", "enumerate") and not lp.backward:
+            # for (k, &c) in src.iter().enumerate(): dst[2k], dst[2k + 1]
+            form = "src.iter().enumerate()"
+            s_ok = src_ok(strip(pipe[3]))
+            idx = lp.index_val()
+            e = idx[1] if idx is not None else None
+            want = None if e is None else {0: (("arg", 2), (("idx", ("I", e * Poly.const(2))),)), 1: (("arg", 2), (("idx", ("I", e * Poly.const(2) + Poly.const(1))),))}
+            byte_off = E(("elemoff", (tag0, 0)))
+        elif isinstance(pipe, tuple) and len(pipe) == 5 and pipe[:3] == ("V", "iter", "zip") and not lp.backward:
+            # for (s, &c) in dst.chunks_exact_mut(2).zip(src): s[0], s[1]
+            form = "dst.chunks_exact_mut(2).zip(src)"
+            d = pipe[3]
+            d_ok = isinstance(d, tuple) and len(d) == 5 and d[:3] == ("V", "iter", "chunks_exact") and d[3][0] == "P" and d[3][1] == ("arg", 2) and not d[3][2].t and d[4] == Poly.const(2)
+            s_ok = d_ok and src_ok(strip(pipe[4]))
+            slot = ("off", ("arg", 2), E(("elemoff", (tag0, 0))))
+            want = {0: (slot, (("idx", ("I", Poly.const(0))),)), 1: (slot, (("idx", ("I", Poly.const(1))),))}
+            byte_off = E(("elemoff", (tag0, 1)))
+        if form is not None:
+            sts = [x for x in a.stores if x["site"][0] in lp.blocks]
+            ds = [_digit_store(x) for x in sts]
+            good = len(sts) == 2 and all(x is not None for x in ds) and want is not None
+            if good:
+                by = {x[1]: x for x in ds}
+                byte = E(("cell", (("off", ("arg", 1), byte_off), ())))
+                good = set(by) == {0, 1} and by[0][0] == want[0] and by[1][0] == want[1] and by[0][3] == byte and by[1][3] == byte and by[0][2] == by[1][2]
+            once = bool(good) and (_count_blocks(lp, {x["site"][0] for x in sts}) == ({2} if sts[0]["site"][0] != sts[1]["site"][0] else {1}))
+            ok = bool(s_ok and good and once and not lp.breaks)
+            ctx.ob(rule, key, ok, "encoder = loop over %s (whole src from src[0], dst from dst[0], forward: %s) storing dst[2k] = TABLE[src[k] >> 4] and dst[2k + 1] = TABLE[src[k] & 15] in every iteration: %s/%s; no early exit: %s" % (
+                form, s_ok, good, once, not lp.breaks), at=b["at"], cfg=cfg)
+            return
+    ctx.ob(rule, key, UNKNOWN, "the table encoder is neither zip(dst.chunks_exact_mut(2), src).for_each(..) nor one loop over src.iter().enumerate(): what it writes is not decided", at=b["at"], cfg=cfg)
 
 
 def check_impls(ctx, cfg):
@@ -231,4 +493,5 @@ def check(ctx):
     for cfg in cfgs:
         check_generic_hex(ctx, cfg)
         check_encoders(ctx, cfg)
+        check_encoder_writes(ctx, cfg)
         check_impls(ctx, cfg)
